@@ -158,6 +158,7 @@ structure St where
   accepted : List Nat := []
   acked : List Nat := []
   lost : List Nat := []                           -- already reported by `no_silent_loss`
+  seen : List (Nat × Nat) := []                   -- id ↦ time of the insert that accepted it
 
 def lookupD {β} (l : List (Nat × β)) (k : Nat) (d : β) : β := (l.lookup k).getD d
 
@@ -257,6 +258,21 @@ def checkDump (st : St) (d : IDump) (afterMaintain : Bool) (modelDropped : List 
     | (a, g, n) :: rest => rest.all (fun (a', g', n') => !(a' == a && g' == g && n' ≤ n)) && scan rest
   if !scan info then
     bad := ("builder_order", s!"builder queue {d.bq} puts a higher nonce before a lower one of the same account and group") :: bad
+  -- the documented priority: action group (higher first), then nonce difference to the account's
+  -- lowest ready nonce, then time first seen
+  let keys := d.bq.filterMap (fun i =>
+    match d.pend.find? (·.id == i), st.txs[i]? with
+    | some r, some t =>
+      let first := ((d.pend.filter (·.acct == r.acct)).map (·.nonce)).foldl min r.nonce
+      some (t.group, r.nonce - first, lookupD st.seen i 0)
+    | _, _ => none)
+  let le (x y : Nat × Nat × Nat) : Bool :=
+    x.1 > y.1 || (x.1 == y.1 && (x.2.1 < y.2.1 || (x.2.1 == y.2.1 && x.2.2 ≤ y.2.2)))
+  let rec sorted : List (Nat × Nat × Nat) → Bool
+    | [] => true
+    | x :: rest => rest.all (le x) && sorted rest
+  if !sorted keys then
+    bad := ("builder_priority", s!"builder queue {d.bq} is not ordered by (group, nonce difference, time first seen): {keys}") :: bad
   return bad
 
 /-! ## the run -/
@@ -362,7 +378,7 @@ def run (lines : Array String) : Driver.Report := Id.run do
           if (builderQueue s').length ≥ 4 then r := r.bump "builder_queue_ge4"
           -- ghost state of the monitors, from the op and the implementation's result
           match rest with
-          | ["insert", t, cur, b, _, _] =>
+          | ["insert", t, cur, b, _, at_] =>
             let id := (parseLabel t).getD 0
             match st.txs[id]? with
             | some tx =>
@@ -370,7 +386,7 @@ def run (lines : Array String) : Driver.Report := Id.run do
               if ires == "pending" then st := { st with vbal := setKey st.vbal tx.acct (parseVec b) }
               if ires == "pending" || ires == "parked" then
                 st := { st with accepted := id :: st.accepted.filter (· != id), acked := st.acked.filter (· != id),
-                                lost := st.lost.filter (· != id) }
+                                lost := st.lost.filter (· != id), seen := setKey st.seen id at_.toNat! }
             | none => pure ()
           | ["uncache", t] =>
             let id := (parseLabel t).getD 0
